@@ -251,8 +251,17 @@ impl Server {
             return;
         }
 
+        // A pending connection becomes active as soon as its ACK arrives, so it occupies an
+        // active slot from the start
+        let num_active_or_pending = self.clients.values().filter(|client| {
+            match client.borrow().state {
+                remote_client::State::Pending(_) | remote_client::State::Active(_) => true,
+                _ => false,
+            }
+        }).count();
+
         if self.clients.len() >= self.config.max_total_connections
-            && self.active_clients.len() >= self.config.max_active_connections
+            || num_active_or_pending >= self.config.max_active_connections
         {
             // No room in the inn
             let reply = frame::Frame::HandshakeErrorFrame(frame::HandshakeErrorFrame {
